@@ -289,6 +289,9 @@ def _small_steps(legacy, current, qt, base):
         ("R:AddCategory(qt, qt)", "R", lambda db, u: db.AddCategory(qt, qt)),
         ("R:AddCategory('other', qt)", "R", lambda db, u: db.AddCategory("other", qt)),
         ("R:AddCategory('limited', qt, valid_units=[u], default_unit=u)", "RQ", lambda db, u: repr(db.AddCategory("limited", qt, valid_units=[u], default_unit=u))),
+        ("R:AddCategory('child', from_category='limited', valid_units=<the list GetValidUnits('limited') returned, u appended>)", "RQ",
+         lambda db, u: (lambda lst: (lst.append(u), repr((db.AddCategory("child", from_category="limited", valid_units=lst).valid_units, db.GetValidUnits("child"))))[1])(db.GetValidUnits("limited"))),
+        ("R:AddCategory('child2', from_category='limited', valid_units=[base, u])", "RQ", lambda db, u: repr((db.AddCategory("child2", from_category="limited", valid_units=[base, u]).valid_units, db.GetValidUnits("child2")))),
         ("R:AddUnit(qt, 'x')", "R", lambda db, u: db.AddUnit(qt, "ex", "x", MakeBaseToCustomary(0.0, 2.0, 1.0, 0.0), MakeCustomaryToBase(0.0, 2.0, 1.0, 0.0))),
         ("Q:db.GetDefaultCategory(u)", "Q", lambda db, u: db.GetDefaultCategory(u)),
         ("Q:ObtainQuantity(u)", "Q", lambda db, u: ObtainQuantity(u)),
@@ -336,8 +339,6 @@ def _small_histories(task):
                     part.count("evaluations", 2)
                     part.count("histories")
                     a, b = outs
-                    if isinstance(a[1], str) and isinstance(b[1], str) and a[0] == "ok":
-                        a = (a[0], a[1].replace(legacy, current))
                     if a != b:
                         part.violation(
                             "C16:history(%s for %s): %s ; then %s" % (legacy, current, " ; ".join(steps[i][0] for i in prefix), lname),
